@@ -29,7 +29,7 @@ PI = Num(Fr('3.14159265358979323846'), Fr(1, 10 ** 20))
 
 
 def interp_for_constants(repo):
-    I = Interp(repo, max_depth=6)
+    I = Interp(repo)
     for k in list(I.native):
         if k.startswith('pmutt.constants.'):
             del I.native[k]
